@@ -55,9 +55,6 @@ theorem mutual_exclusion (h : Reachable w s) :
 
 /-! ### accepted xor dropped at submission -/
 
-theorem count_le_one_of_nodup {l : List JobId} (h : l.Nodup) (j : JobId) : l.count j ≤ 1 :=
-  List.nodup_iff_count.mp h j
-
 /-- every job handed to `Submit` is — once `Submit` has made its decision and acted on it — either accepted
     (pushed) or Dropped by `Submit`, never both, never twice -/
 theorem accepted_xor_dropped (h : Reachable w s) (j : JobId) :
@@ -124,18 +121,6 @@ theorem no_accept_after_stop (h : Reachable w s) {l : Label} {s' : State} (hs : 
 
 /-! ### accepted ⇒ Called at most once, or Dropped at most once by HardStop -/
 
-theorem hardDropped_le_stolen (h : Reachable w s) (j : JobId) : s.hardDropped.count j ≤ s.stolen.count j := by
-  have hb := invB_reachable h
-  cases hx : s.xpc with
-  | done => rw [hb.hard_done hx]; exact Nat.le_refl _
-  | dropping l =>
-      have := hb.hard_drop l hx
-      rw [← this, List.count_append]; omega
-  | idle => rw [hb.hard_pre (by rw [hx]; simp) (by rw [hx]; simp)]; simp
-  | want => rw [hb.hard_pre (by rw [hx]; simp) (by rw [hx]; simp)]; simp
-  | held => rw [hb.hard_pre (by rw [hx]; simp) (by rw [hx]; simp)]; simp
-  | notifyAll => rw [hb.hard_pre (by rw [hx]; simp) (by rw [hx]; simp)]; simp
-
 /-- a job is Called at most once and Dropped by HardStop at most once, never both, and only if it was accepted;
     a job rejected by `Submit` is never Called -/
 theorem accepted_called_once_or_hardstopped (h : Reachable w s) (j : JobId) :
@@ -200,19 +185,6 @@ theorem softstop_only_when_idle (h : Reachable w s) {l : Label} {s' : State} (hs
   refine ⟨List.eq_nil_of_length_eq_zero (by omega), by omega⟩
 
 /-! ### after Wait -/
-
-/-- a later state of the same run -/
-inductive Later (s : State) : State → Prop where
-  | refl : Later s s
-  | step {t l t'} : Later s t → Step t l t' → Later s t'
-
-theorem later_reachable (h : Reachable w s) {t : State} (hl : Later s t) : Reachable w t := by
-  induction hl with
-  | refl => exact h
-  | step _ hs ih => exact .step ih hs
-
-theorem wait_stable {l : Label} {s' : State} (hs : Step s l s') (hr : s.waitReturned = true) : s'.waitReturned = true := by
-  cases hs <;> first | exact hr | rfl
 
 /-- after Wait returned every worker has left `Loop`, no job is running, no Call can happen … -/
 theorem after_wait_nothing_runs (h : Reachable w s) (hr : s.waitReturned = true) :
